@@ -107,6 +107,8 @@ type FnVC struct {
 	compType      map[string]compTy
 	globalGoNames map[string]goName
 	pendingDistinct []string
+	bigConstRefs  [][2]string
+	benign        map[int]bool
 }
 
 type pureDef struct {
@@ -157,6 +159,21 @@ func (vc *FnVC) decl(key, text string) {
 		return
 	}
 	vc.declSet[key] = true
+	vc.decls = append(vc.decls, text)
+}
+
+// declAxiom adds a quantified background axiom (type invariants of heap components,
+// injectivity of sub-object references). These are satisfiable by construction and may
+// be left out of reachability probes and of model-finding retries.
+func (vc *FnVC) declAxiom(key, text string) {
+	if vc.declSet[key] {
+		return
+	}
+	vc.declSet[key] = true
+	if vc.benign == nil {
+		vc.benign = map[int]bool{}
+	}
+	vc.benign[len(vc.decls)] = true
 	vc.decls = append(vc.decls, text)
 }
 
@@ -464,8 +481,12 @@ type compTy struct {
 // compAxiom states the type invariant of a heap component version: every stored
 // integer lies in the range of its Go type.
 func (vc *FnVC) compAxiom(version, comp string) {
+	if comp == "U256" {
+		vc.declAxiom("tyinv$"+version,fmt.Sprintf("(assert (forall ((r Int)) (! (and (<= 0 (select %s r)) (< (select %s r) %s)) :pattern ((select %s r)))))", version, version, two256, version))
+		return
+	}
 	ct, ok := vc.compType[comp]
-	if !ok {
+	if !ok || ct.t == nil {
 		return
 	}
 	var sel string
@@ -481,7 +502,7 @@ func (vc *FnVC) compAxiom(version, comp string) {
 	if len(fs) == 0 {
 		return
 	}
-	vc.decl("tyinv$"+version, fmt.Sprintf("(assert (forall %s (! (and %s true) :pattern (%s))))", binders, strings.Join(fs, " "), sel))
+	vc.declAxiom("tyinv$"+version,fmt.Sprintf("(assert (forall %s (! (and %s true) :pattern (%s))))", binders, strings.Join(fs, " "), sel))
 }
 
 func (vc *FnVC) elemComp(elem types.Type) (name, sort string) {
@@ -553,7 +574,7 @@ func (vc *FnVC) fldRef(owner types.Type, idx int, ref string) string {
 		vc.decl(fn, fmt.Sprintf("(declare-fun %s (Int) Int)", fn))
 		vc.decl(fn+"$inv", fmt.Sprintf("(declare-fun %s$inv (Int) Int)", fn))
 		vc.decl("reftag", "(declare-fun reftag (Int) Int)")
-		vc.decl(fn+"$ax", fmt.Sprintf("(assert (forall ((r Int)) (! (and (= (%s$inv (%s r)) r) (= (reftag (%s r)) %d) (> (%s r) 0)) :pattern ((%s r)))))", fn, fn, fn, vc.refTagN, fn, fn))
+		vc.declAxiom(fn+"$ax",fmt.Sprintf("(assert (forall ((r Int)) (! (and (= (%s$inv (%s r)) r) (= (reftag (%s r)) %d) (> (%s r) 0)) :pattern ((%s r)))))", fn, fn, fn, vc.refTagN, fn, fn))
 	}
 	return fmt.Sprintf("(%s %s)", fn, ref)
 }
@@ -566,7 +587,7 @@ func (vc *FnVC) elemRef(elem types.Type, arr, idx string) string {
 		vc.decl(fn, fmt.Sprintf("(declare-fun %s (Int Int) Int)", fn))
 		vc.decl(fn+"$inv", fmt.Sprintf("(declare-fun %s$arr (Int) Int)\n(declare-fun %s$idx (Int) Int)", fn, fn))
 		vc.decl("reftag", "(declare-fun reftag (Int) Int)")
-		vc.decl(fn+"$ax", fmt.Sprintf("(assert (forall ((a Int) (i Int)) (! (and (= (%s$arr (%s a i)) a) (= (%s$idx (%s a i)) i) (= (reftag (%s a i)) %d) (> (%s a i) 0)) :pattern ((%s a i)))))", fn, fn, fn, fn, fn, vc.refTagN, fn, fn))
+		vc.declAxiom(fn+"$ax",fmt.Sprintf("(assert (forall ((a Int) (i Int)) (! (and (= (%s$arr (%s a i)) a) (= (%s$idx (%s a i)) i) (= (reftag (%s a i)) %d) (> (%s a i) 0)) :pattern ((%s a i)))))", fn, fn, fn, fn, fn, vc.refTagN, fn, fn))
 	}
 	return fmt.Sprintf("(%s %s %s)", fn, arr, idx)
 }
